@@ -396,7 +396,16 @@ def tasks_rule(eng: Engine, ck: Check):
                 if isinstance(n, ast.Call) and call_name(n) in ('append', 'extend', 'add') and isinstance(n.func.value, ast.Name) and n.func.value.id == e.id \
                         and n.args and yields_slot(n.args[0], fnode, slot, depth + 1):
                     return True
+                # `a, b = self._x, self._y`
+                if isinstance(n, ast.Assign) and isinstance(n.targets[0], ast.Tuple) and isinstance(n.value, ast.Tuple) and len(n.targets[0].elts) == len(n.value.elts):
+                    for t_, v_ in zip(n.targets[0].elts, n.value.elts):
+                        if isinstance(t_, ast.Name) and t_.id == e.id and yields_slot(v_, fnode, slot, depth + 1):
+                            return True
             return False
+        # a compound expression (`[a] if a else [] + ..`, `list(filter(None, (a, b)))`): any local it is built from
+        for x in ast.walk(e):
+            if isinstance(x, ast.Name) and isinstance(x.ctx, ast.Load) and x is not e and yields_slot(x, fnode, slot, depth + 1):
+                return True
         for x in ast.walk(e):
             if isinstance(x, ast.Call) and isinstance(x.func, ast.Attribute):
                 fi = getattr(fnode, '_info', None)
